@@ -47,3 +47,26 @@ Theorem C09_output_buffer_size_independent :
     forall ps p L1 R1 L2 R2, SeqDec O1 ps p L1 R1 -> SeqDec O2 ps p L2 R2 ->
       R1 = R2 /\ (R1 = true -> out_bytes bytes1 L1 = out_bytes bytes2 L2).
 Proof. exact seqdec_granule_indep. Qed.
+
+(* Codec layer facts the process-level statements lean on (proved about the array-level
+   models of decode()/emit() and about bit-reader programs, tied to decode.c by the
+   harnesses of C08):
+   - out_granul: the bytes written over successive emit() calls are the same for ANY
+     positive buffer sizes, as are the verdict and (on success) the CRC;
+   - in_granul / read() fragmentation: feeding a reader its input in arbitrary chunks
+     (suspending with MORE at every chunk end) gives the result of running it on the
+     concatenation. *)
+From LBZ Require Common.Bits Dec.Prog Safe.Bounds Safe.EmitModel Safe.EmitProofs.
+
+Theorem C09_codec_output_buffer_sizes :
+  forall col idx rand s1 s2 r1 c1 e1 r2 c2 e2,
+    EmitProofs.block_ok col idx -> EmitProofs.sizes_ok s1 -> EmitProofs.sizes_ok s2 ->
+    EmitModel.decode_emit col idx rand s1 = EmitModel.RFinished r1 c1 e1 ->
+    EmitModel.decode_emit col idx rand s2 = EmitModel.RFinished r2 c2 e2 ->
+    r1 = r2 /\ concat c1 = concat c2 /\ (r1 = Consts.E_OK -> EmitModel.ds_crc e1 = EmitModel.ds_crc e2).
+Proof. exact EmitProofs.emit_buffer_independent. Qed.
+
+Theorem C09_codec_input_chunking :
+  forall (A : Type) (p : Prog.prog A) (chunks : list (list bool)),
+    Bounds.finish (Bounds.feed_all p chunks) = Prog.run p (concat chunks).
+Proof. exact (@Bounds.feed_chunking). Qed.
